@@ -368,7 +368,7 @@ structure RawFile where
   rcMax : Nat
   publicMemory : List RawMem
   annotations : List String
-  deriving Repr
+  deriving DecidableEq, Repr
 
 /-! ### layouts, segments, dynamic parameters -/
 
@@ -408,16 +408,21 @@ def staticConsts (layout : String) : Option LayoutConsts :=
 /-- the ASCII bytes of the layout name as a big-endian integer -/
 def layoutCode (layout : String) : Nat := layout.toList.foldl (fun acc c => acc * 256 + c.toNat) 0
 
-/-- key order of Rust's `BTreeMap<String, _>`: byte-wise lexicographic on the UTF-8 encoding, which
-    coincides with the lexicographic order on code points (Lean's `String` order). -/
-def keyLe (a b : String × Nat) : Bool := decide (a.1 ≤ b.1)
+/-- Key order of Rust's `BTreeMap<String, _>`: byte-wise lexicographic on the UTF-8 encoding, which coincides
+    with the lexicographic order on code points.  Keys are handled as `List Char` (structural, cheap to
+    evaluate — also for the kernel). -/
+def leChars : List Char → List Char → Bool
+  | [], _ => true
+  | _ :: _, [] => false
+  | a :: as, b :: bs =>
+    if a.toNat < b.toNat then true else if b.toNat < a.toNat then false else leChars as bs
 
-def insertKey (x : String × Nat) : List (String × Nat) → List (String × Nat)
+def insertKey (x : List Char × Nat) : List (List Char × Nat) → List (List Char × Nat)
   | [] => [x]
-  | y :: ys => if keyLe x y then x :: y :: ys else y :: insertKey x ys
+  | y :: ys => if leChars x.1 y.1 then x :: y :: ys else y :: insertKey x ys
 
-/-- insertion sort by key (stable) -/
-def sortKeys : List (String × Nat) → List (String × Nat)
+/-- insertion sort by key (ascending, stable) -/
+def sortKeys : List (List Char × Nat) → List (List Char × Nat)
   | [] => []
   | x :: xs => insertKey x (sortKeys xs)
 
@@ -427,7 +432,8 @@ def renameChars : List Char → List Char
   | c :: cs => c :: renameChars cs
   | [] => []
 
-def rename (s : String) : String := String.ofList (renameChars s.toList)
+/-- the verifier's field name of a Stone key -/
+def fieldName (key : List Char) : String := String.ofList (renameChars key)
 
 def lookupKey (k : String) : List (String × Nat) → Option Nat
   | [] => none
@@ -436,8 +442,8 @@ def lookupKey (k : String) : List (String × Nat) → Option Nat
 /-- Dynamic parameters for the verifier: the values ordered by key; the renamed sorted keys must be
     exactly the verifier's field names in struct order. -/
 def dynamicParamsOf (dp : List (String × Nat)) : Except String (List Nat) :=
-  let sorted := sortKeys dp
-  if sorted.map (fun kv => rename kv.1) ≠ Gen.DynamicParams.fields then
+  let sorted := sortKeys (dp.map fun kv => (kv.1.toList, kv.2))
+  if sorted.map (fun kv => fieldName kv.1) ≠ Gen.DynamicParams.fields then
     .error "dynamic_params: keys are not the verifier's dynamic parameter fields"
   else if sorted.any (fun kv => kv.2 ≥ U32) then .error "dynamic_params: value does not fit u32"
   else .ok (sorted.map (·.2))
